@@ -94,7 +94,8 @@ def sample_contracts(ctx, tier, seed, qualnames):
             continue
         texts = [t for _, t in c.ensures] + [t for _, t in c.ensures_exc] + [t for t in c.raises.values() if t] + \
                 list(c.raises_iff.values()) + [t for _, t in c.requires]
-        if any("final_" in t for t in texts):
+        witness = getattr(c, "native_witness", None) or {}
+        if any("final_" in t for t in texts) and not witness:
             skipped.append(f"{label}: existential witness clauses (final_<local>) are not evaluable at run time")
             continue
         kinds = [c.params[nm] for nm in names]
@@ -107,8 +108,19 @@ def sample_contracts(ctx, tier, seed, qualnames):
         for _ in range(per):
             vals = {nm: _gen(k, rnd) for nm, k in zip(names, kinds)}
             args = [vals[nm] for nm in names]
+            env_vals = dict(vals)
+            if witness:
+                from .native import native_env, eval_clause
+                try:
+                    nenv = native_env(reg, finfo.module, vals)
+                    if not all(eval_clause(t, nenv, {}) for _, t in c.requires):
+                        continue  # the witness is only defined under the precondition
+                    for wn, wexpr in witness.items():
+                        env_vals[wn] = eval(wexpr, nenv)
+                except Exception:  # noqa
+                    continue
             try:
-                vio, observed = check_contract_natively(reg, c, lambda: fobj(*args), dict(vals), finfo.module)
+                vio, observed = check_contract_natively(reg, c, lambda: fobj(*args), env_vals, finfo.module)
             except Exception as e:  # noqa  (a clause that cannot be evaluated natively is a defect of the sidecar)
                 vio, observed = [f"clause evaluation crashed: {type(e).__name__}: {e}"], "?"
             if vio is None:
